@@ -162,7 +162,7 @@ Proof. vm_compute. split; reflexivity. Qed.
    build mode and operand (no well-formedness hypothesis): an edit of the source that changes what one of these
    functions computes or delegates to breaks this theorem ---- *)
 From Bnum.Model Require Import Digit Core Shift AddSub Mul Div Bits Pow.
-From Bnum.Model Require Ops.
+From Bnum.Model Require Ops NumTraits.
 From Bnum.Generated Require Import Glue.
 From Bnum.Proofs Require Import GlueTieCommon GlueTieC07.
 Theorem C07_glue_rs_matches_model :
